@@ -11,7 +11,7 @@
   (in the layout, or for the queried file).  `get_relative_piece_indexes` is false in general
   (open finding D11c): full statement, partial theorem and counterexample below.
 -/
-import Torf.Lemmas.GeomIndex
+import Torf.Lemmas.GeomExcl
 import Torf.Lemmas.GeomPiece
 namespace Torf.C11
 open Torf Torf.Geometry Torf.GeomLemmas
@@ -53,6 +53,13 @@ theorem C11_get_piece_indexes_of_file_spec (sizes : List Nat) (L : Nat) (j : Nat
     (hj : j < sizes.length → 0 < GeomSpec.size sizes j) :
     getPieceIndexesOfFile sizes L j false = GeomSpec.pieceIndexesOfFile sizes L j false :=
   getPieceIndexesOfFile_spec sizes L j hL hj
+
+/-- exclusive variant: pieces that hold bytes of the file and of no other file (layouts without
+    zero-length entries; with a content path or without — the model compares torrent files) -/
+theorem C11_get_piece_indexes_of_file_exclusive_spec (sizes : List Nat) (L : Nat) (j : Nat)
+    (hL : 0 < L) (hne : NoEmpty sizes) :
+    getPieceIndexesOfFile sizes L j true = GeomSpec.pieceIndexesOfFile sizes L j true :=
+  getPieceIndexesOfFile_exclusive_spec sizes L j hL hne
 
 theorem C11_get_absolute_piece_indexes_spec (sizes : List Nat) (L : Nat) (j : Nat)
     (rels : List Int) (hL : 0 < L) (hj : j < sizes.length → 0 < GeomSpec.size sizes j) :
@@ -192,6 +199,7 @@ example : NoEmpty [1, 2, 3] := by unfold NoEmpty; decide
 example : NoEmptyFiles [[1], [2, 3], [4, 5, 6]] := by unfold NoEmptyFiles; decide
 example : getFilesAtPieceIndex [1, 2, 3] 2 1 = .ok [1, 2] := by decide
 example : getPieceIndexesOfFile [1, 2, 3] 2 2 false = .ok [1, 2] := by decide
+example : getPieceIndexesOfFile [1, 2, 5] 2 2 true = .ok [2, 3] := by decide
 example : getAbsolutePieceIndexes [1, 2, 3] 2 2 [-1, 0, 7] = .ok [1, 2] := by decide
 example : SizeOnlyOk [2, 3] 2 1 := by unfold SizeOnlyOk; decide
 example : ¬ SizeOnlyOk [1, 2] 2 1 := by unfold SizeOnlyOk; decide
